@@ -27,12 +27,12 @@ H = []
 
 
 def h(prop, crate, module, name, obligation, functions, bounds, quick=True, tq=300, tt=1800, unwind=None, miri=False,
-      memsafety=False, stubs=None, instantiation="", extra_props=()):
+      memsafety=False, stubs=None, instantiation="", extra_props=(), fs=None):
     H.append({
         "props": [prop] + list(extra_props), "crate": crate, "name": f"{module}::{name}", "obligation": obligation,
         "functions": functions, "bounds": bounds, "tiers": ("quick", "thorough") if quick else ("thorough",),
         "timeout": {"quick": tq, "thorough": tt}, "unwind": unwind, "miri": miri, "memsafety": memsafety,
-        "stubs": stubs, "instantiation": instantiation,
+        "stubs": stubs, "instantiation": instantiation, "fs": fs,
     })
 
 
@@ -76,6 +76,10 @@ for n in (0, 1, 2, 3):
     h("C08", "foyer-common", CODE, f"c08_r1_string_{n}", "R1+R2 String", "<String as Code>::{encode,decode,estimated_size}, String::from_utf8",
       f"payload length exactly {n} bytes, contents symbolic ASCII (bytes < 0x80); multi-byte UTF-8 is outside the symbolic claim",
       quick=n in (0, 2), tq=300)
+h("C08", "foyer-common", CODE, "c08_r1_string_multibyte", "R1 String with multi-byte UTF-8 (encode side, symbolic)", "<String as Code>::{encode,estimated_size}",
+  "every string of one two-byte scalar (U+0080..U+07FF), optionally preceded by one ASCII byte", quick=True, tq=300)
+h("C08", "foyer-common", CODE, "c08_r1_string_multibyte_concrete", "R1 String with multi-byte UTF-8 (encode+decode, concrete samples)", "<String as Code>::{encode,decode}, String::from_utf8",
+  "three concrete strings with 2-, 3- and 4-byte scalars", quick=True, tq=300)
 BS = "engine::block::serde::verif_kani"
 h("C08", "foyer-storage", BS, "c08_r3_header_roundtrip", "R3 header", "EntryHeader::{write,read}, Compression::{to_u8,try_from}",
   "every value of key_len,value_len,hash,sequence,checksum; compression tag 0..=2", tq=240)
@@ -95,13 +99,257 @@ for n in (0, 8, 16, 24):
       "EntryDeserializer::{deserialize,deserialize_key,deserialize_value} (u64 key, u64 value, Compression::None)",
       f"buffer of exactly {n} arbitrary bytes; key_len,value_len: all u32 values; checksum None or any u64", quick=n in (16,), tq=240)
 
+
+# =====================================================================================================================
+# foyer-memory: RawCache step harnesses (C05 accounting, C13 leave events / hand-off, C18 handles, C12-P1 / C01-S1 phantom
+# advice, C16 lock oracle) -- one concrete pre-state + ONE operation with symbolic key / value / weight per harness
+# =====================================================================================================================
+RAW = "raw::verif_kani"
+RAW_FUNCS = ("RawCache::{new,insert,insert_with_properties,insert_inner,remove,get,contains,touch,clear,evict_all,usage,entries}, "
+             "RawCacheShard::{emplace,evict,remove,clear,get_*}, RawCacheEntry::{clone,drop,is_outdated,refs}, Sentry, ")
+INST = {"fifo": "RawCache<Fifo<u64,u64,HProps>, IdHasher, VecIndexer>", "lru": "RawCache<Lru<u64,u64,HProps>(ratio 0.5), IdHasher, VecIndexer>",
+        "sieve": "RawCache<Sieve<u64,u64,HProps>, IdHasher, VecIndexer>"}
+TAKE = [TAKE_STUB]
+
+
+def raw(name, alg, props, what, bounds, quick=False, tq=600, tt=1800):
+    h(props[0], "foyer-memory", RAW, name, what, RAW_FUNCS + f"{alg.capitalize()}::{{push,pop,remove,acquire,release,clear}}", bounds,
+      quick=quick, tq=tq, tt=tt, unwind=5, instantiation=INST[alg], extra_props=props[1:], stubs=MEMORY_STUBS + TAKE, memsafety=False)
+
+
+# The step harnesses are declared in /verif/harness/foyer-memory/raw.rs; the registry reads them from there so that the two
+# cannot drift apart.  Which properties a scenario serves follows from its operation and flags.
+import os as _os, re as _re
+
+_RAW_SRC = open(_os.path.join(_os.path.dirname(_os.path.abspath(__file__)), "foyer-memory", "raw.rs")).read()
+_OPS = {"OP_INSERT": "insert(key, v) with symbolic value v (weight v&3 in 0..3, bit 2 = rejected by the admission filter)",
+        "OP_INSERT_LOW": "insert with Hint::Low, symbolic value", "OP_INSERT_DISK": "insert_with_properties(Location::OnDisk), symbolic value",
+        "OP_REMOVE": "remove(key)", "OP_GET": "get(key), clone, drop", "OP_CLEAR": "clear()", "OP_EVICT_ALL": "evict_all()",
+        "OP_GET_HOLD_INSERT": "get(key) and hold; insert another key (symbolic weight); drop; insert again",
+        "OP_TOUCH_INSERT": "touch(key) (no handle is created); insert the absent key with symbolic weight 1..3"}
+_KEYN = {"0": "16 (resident)", "1": "17 (resident, same 64-bit hash as 16)", "2": "32 (absent)"}
+QUICK_RAW = {
+    # C05 / C13 core
+    "raw_fifo_c2_ins_k2_w1", "raw_fifo_c2_ins_k2_w2", "raw_fifo_c2_ins_k2_w3", "raw_fifo_c2_ins_k0_w2", "raw_fifo_c2_ins_k2_w1r", "raw_fifo_c3_ins_k2_w1", "raw_fifo_c3_ins_k0_w3",
+    "raw_fifo_c2_insdisk_k0_w2", "raw_fifo_c2_insdisk_k2_w1", "raw_fifo_c2_remove_k0", "raw_fifo_c2_clear", "raw_fifo_c2_evictall", "raw_lru_c2_ins_k2_w2", "raw_sieve_c2_ins_k2_w1",
+    "raw_lru_c2_clear",
+    # C18
+    "raw_fifo_c2_get_k0", "raw_fifo_c2_hold_ins_k2_w1", "raw_lru_c2_hold_ins_k2_w2", "raw_lru_c2_hold_ins_k2_w3", "raw_lru_c2_keep_hold_ins_k2_w2", "raw_lru_c2_touch_ins_k0_w2",
+    "raw_lru_c2_holdins_k0_w2", "raw_lru_c2_hold_evictall", "raw_lru_c2_hold_remove_k0",
+}
+
+
+def _scenario(name, ety, keep, args, key, lit=None):
+    alg = {"FifoT": "fifo", "LruT": "lru", "SieveT": "sieve"}[ety]
+    cap, pre, npre, hold, pin, obs, op = args[:7]
+    props = []
+    what = []
+    if op in ("OP_INSERT", "OP_INSERT_LOW", "OP_CLEAR", "OP_REMOVE", "OP_EVICT_ALL", "OP_TOUCH_INSERT"):
+        props.append("C05"); what.append("A1 accounting" + ("+A2 eviction bound" if "INSERT" in op else "") + ("+A3" if op == "OP_CLEAR" else ""))
+    if op == "OP_INSERT_DISK" or (lit and lit[1] == "true"):
+        props += ["C12", "C01", "C05"]; what.append("P1/S1 disk-only advice / filter rejection: not retained in memory, handed over once at last drop")
+    if obs == "true":
+        props.append("C13"); what.append("leave notifications / disk hand-off conservation")
+    if hold == "true" or keep or op in ("OP_GET", "OP_GET_HOLD_INSERT", "OP_TOUCH_INSERT", "OP_REMOVE"):
+        props.append("C18"); what.append("handle integrity, refs(), is_outdated(), pinning" + (" (insert handle alive during the lookup)" if keep else ""))
+    # (every RawCache harness also carries the C16 lock oracle - slow paths panic - but only the c16_* harnesses are listed under C16)
+    seen = []
+    for q in props:
+        if q not in seen:
+            seen.append(q)
+    capt = f"capacity {cap[5:-1]}"
+    pret = {"FULL2": "resident: 16,17 each weight 1", "HEAVY": "resident: 16 (weight 2), 17 (weight 1)", "[None; 3]": "empty cache"}[pre]
+    opt = _OPS[op]
+    if lit:
+        opt = opt.replace("symbolic value v (weight v&3 in 0..3, bit 2 = rejected by the admission filter)", "value").replace("symbolic value", "value").replace("with symbolic weight 1..3", "").replace("(symbolic weight)", "")
+        opt += f" - inserted weight {lit[0]}" + (", rejected by the admission filter" if lit[1] == "true" else "") + ", 32-bit payload symbolic"
+    bounds = f"1 shard, {capt}; {pret}" + ("; looked-up handle of 16 held across the step" if hold == "true" else "") + ("; insert handle of 16 still alive" if keep else "") + \
+        f"; ONE operation: {opt}" + (f"; key {_KEYN[key]}" if key is not None and op not in ("OP_CLEAR", "OP_EVICT_ALL") else "")
+    raw(name, alg, seen, "; ".join(what) or "operation result", bounds, quick=name in QUICK_RAW)
+
+
+_A = r"(Some\(\d\)|None), (FULL2|HEAVY|\[None; 3\]), (\d), (true|false), (true|false), (true|false), (OP_\w+)"
+for _m in _re.finditer(r"\nst!\((\w+), (\w+), [^;]*?, " + _A + r", (\d), (\d), (true|false)\);", _RAW_SRC):
+    g = _m.groups()
+    _scenario(g[0], g[1], False, list(g[2:9]), g[9], (g[10], g[11]))
+for _m in _re.finditer(r"\nstep3!\((\w+), (\w+), (\w+), (\w+), [^;]*?, " + _A + r"\);", _RAW_SRC):
+    g = _m.groups()
+    for ki, nm in enumerate(g[:3]):
+        _scenario(nm, g[3], False, list(g[4:]), str(ki))
+for _m in _re.finditer(r"\nstep_harness!\((\w+), (\w+), [^;]*?sck?\(" + _A + r"(?:, (\d))?\)[^;]*\);", _RAW_SRC):
+    g = _m.groups()
+    lm = _re.search(r"lit: \((\d), (true|false)\)", _m.group(0))
+    _scenario(g[0], g[1], "keep_insert_handle: true" in _m.group(0), list(g[2:9]), g[9], lm.groups() if lm else None)
+
+for alg in ("fifo", "lru", "sieve"):
+    for n in (2, 3):
+        h("C05", "foyer-memory", RAW, f"shard_{alg}_{n}", f"A1+A2+A3 on a stack RawCacheShard, {n} fully symbolic operations",
+          "RawCacheShard::{emplace,evict,remove,clear}, Sentry, " + alg.capitalize() + "::{push,pop,remove,clear}",
+          f"capacity symbolic 0..=4; {n} operations, each a symbolic choice of emplace(key in {{16,17,32}}, weight 0..3, phantom?, low hint?) / remove(key) / clear / evict(0)",
+          quick=False, tq=900, tt=3000, unwind=6, instantiation=INST[alg].replace("RawCache", "RawCacheShard"), stubs=MEMORY_STUBS + TAKE, memsafety=True)
+h("C05", "foyer-memory", RAW, "c05_a4_capacity_split", "A4 shard capacities add up and differ by at most one", "RawCache::shard_capacity_for",
+  "every total: usize, shards 1..=4", quick=True, tq=300, stubs=MEMORY_STUBS)
+
+# ---- C16: callbacks re-enter the same cache ----
+C16_FUNCS = RAW_FUNCS + "EventListener::on_leave / Weighter / Filter / Drop of the value type calling RawCache::{get,remove,insert} on the same cache"
+def c16(name, alg, what, bounds, quick=False):
+    h("C16", "foyer-memory", RAW, name, what, C16_FUNCS, "capacity 2, full (keys 16,17 weight 1); outer operation on a symbolic key; nested key symbolic; " + bounds,
+      quick=quick, tq=600, tt=1800, unwind=5, instantiation=INST[alg].replace("u64,u64", "u64,DropVal"), stubs=MEMORY_STUBS + TAKE)
+c16("c16_fifo_listener_insert", "fifo", "listener re-enters (remove) during insert (Evict/Replace notifications)", "nested = remove (write lock)", quick=True)
+c16("c16_fifo_listener_remove", "fifo", "listener re-enters during remove", "nested = remove")
+c16("c16_fifo_listener_clear", "fifo", "listener re-enters during clear", "nested = remove", quick=True)
+c16("c16_fifo_listener_evictall", "fifo", "listener re-enters during evict_all", "nested = remove")
+c16("c16_fifo_listener_insdisk", "fifo", "listener re-enters on the last drop of a disk-only entry", "nested = remove")
+c16("c16_fifo_wf_insert", "fifo", "weighter and filter re-enter during insert", "nested = remove", quick=True)
+c16("c16_fifo_drop_insert", "fifo", "value destructor re-enters when insert releases evicted/replaced records", "nested = remove", quick=True)
+c16("c16_fifo_drop_remove", "fifo", "value destructor re-enters after remove", "nested = remove")
+c16("c16_fifo_drop_clear", "fifo", "value destructor re-enters when clear releases records", "nested = remove")
+c16("c16_fifo_drop_evictall", "fifo", "value destructor re-enters when evict_all releases records", "nested = remove")
+c16("c16_fifo_listener_insert_anyaction", "fifo", "listener re-enters with a symbolic nested action", "nested = symbolic get / remove / insert")
+c16("c16_lru_listener_insert", "lru", "listener re-enters during insert (LRU)", "nested = remove")
+c16("c16_lru_drop_insert", "lru", "value destructor re-enters (LRU)", "nested = remove")
+c16("c16_lru_drop_get", "lru", "lookup + handle drop take the write lock under LRU; nested get", "nested = get")
+c16("c16_lru_listener_clear", "lru", "listener re-enters during clear (LRU)", "nested = get")
+c16("c16_sieve_listener_insert", "sieve", "listener re-enters during insert (SIEVE)", "nested = remove")
+c16("c16_sieve_drop_insert", "sieve", "value destructor re-enters (SIEVE)", "nested = remove")
+
+# =====================================================================================================================
+# C14 -- differential against an executable reference of the documented rule
+# =====================================================================================================================
+EV = "eviction::verif_kani"
+def c14(name, alg, cfg, nops, quick=False, tq=600):
+    h("C14", "foyer-memory", EV, name, f"{alg} victim order == documented rule (lock-step differential + final drain)",
+      f"{alg}::{{new,push,pop,remove,acquire,release}} on real Arc<Record>s (intrusive lists)",
+      f"3 records, weights symbolic 1..=2, hints symbolic; {nops} symbolic operations from {{push,pop,remove,acquire,release}}; {cfg}",
+      quick=quick, tq=tq, tt=3000, unwind=6, stubs=MEMORY_STUBS, memsafety=True)
+c14("c14_fifo_3", "Fifo", "capacity 4", 3, quick=True)
+c14("c14_fifo_4", "Fifo", "capacity 4", 4)
+c14("c14_lru_h2_3", "Lru", "capacity 4, high_priority_pool_ratio 0.5 (pool weight 2)", 3, quick=True)
+c14("c14_lru_h2_4", "Lru", "capacity 4, ratio 0.5", 4)
+c14("c14_lru_h1_4", "Lru", "capacity 2, ratio 0.5 (pool weight 1)", 4)
+c14("c14_lru_h0_4", "Lru", "capacity 4, ratio 0.0 (pool weight 0)", 4)
+c14("c14_lru_h2_5", "Lru", "capacity 4, ratio 0.5", 5)
+c14("c14_sieve_3", "Sieve", "capacity 4", 3, quick=True)
+c14("c14_sieve_4", "Sieve", "capacity 4", 4)
+c14("c14_sieve_5", "Sieve", "capacity 4", 5)
+S3STUB = MEMORY_STUBS + ["std HashSet::{insert,remove} -> no-op and GhostQueue::contains -> linear scan of the ghost VecDeque (std's HashSet is SSE2 hashbrown inside the prebuilt std); "
+                         "equivalent while no hash is ghosted twice (every record has a distinct hash)", "std::hash::RandomState::new -> fixed keys (never used)"]
+for nm, cfgt, nops, q in (("c14_s3fifo_g2_4", "capacity 4, small 0.25 (1), ghost 0.5 (2), threshold 1", 4, True), ("c14_s3fifo_g2_5", "capacity 4, small 0.25, ghost 0.5, threshold 1", 5, False),
+                          ("c14_s3fifo_g2_6", "capacity 4, small 0.25, ghost 0.5, threshold 1", 6, False), ("c14_s3fifo_t2_5", "capacity 4, small 0.5 (2), ghost 1.0 (4), threshold 2", 5, False)):
+    h("C14", "foyer-memory", EV, nm, "S3-FIFO victim order == documented rule (lock-step differential + final drain)",
+      "S3Fifo::{new,push,pop,remove,acquire}, GhostQueue::{new,push,pop} on real Arc<Record>s", f"3 records, weights symbolic 1..=2; {nops} symbolic operations; {cfgt}",
+      quick=q, tq=600, tt=3000, unwind=6, stubs=S3STUB)
+h("C14", "foyer-memory", EV, "c14_s3fifo_ghost_window", "S3-FIFO ghost queue remembers at most its configured share, most recent first",
+  "S3Fifo::{push,pop}, GhostQueue::{push,pop}", "3 records with symbolic weights 1..=2 evicted through the small queue; ghost capacity 2", quick=True, tq=600, tt=1800, unwind=6, stubs=S3STUB)
+
+# =====================================================================================================================
+# C11 / C17 / C06 building blocks: in-flight table (hashbrown portable groups)
+# =====================================================================================================================
+INF = "inflight::verif_kani"
+h("C11", "foyer-memory", INF, "c11_x1_close_flag_take", "X1 close-flag identity (take)", "InflightManager::{new,enqueue,take}, hashbrown::HashTable::{entry,insert,remove}",
+  "one key; take by id or by key (symbolic)", quick=True, tq=900, tt=3000, unwind=10, miri=True, stubs=MEMORY_STUBS)
+h("C11", "foyer-memory", INF, "c11_x1_close_flag_fetch_or_take", "X1 close-flag identity (fetch_or_take)", "InflightManager::{new,enqueue,fetch_or_take}",
+  "one key, leader without deferred fetch", quick=False, tq=900, tt=3000, unwind=10, miri=True, stubs=MEMORY_STUBS)
+h("C17", "foyer-memory", INF, "c17_inflight_collision", "in-flight table keeps colliding keys apart", "InflightManager::{enqueue,take}",
+  "keys 16,17 with identical 64-bit hash; 3 enqueues, takes in symbolic order", quick=False, tq=900, tt=3000, unwind=10, miri=True, stubs=MEMORY_STUBS)
+
+h("C17", "foyer-memory", RAW, "c17_hash_table_indexer_collision", "memory index keeps colliding keys apart", "HashTableIndexer::{insert,get,remove}, hashbrown::HashTable::{entry,find}",
+  "keys 16,17 with identical 64-bit hash (order symbolic), values symbolic; insert both, overwrite one, remove one (symbolic which)", quick=True, tq=900, tt=3000, unwind=8, miri=True, stubs=MEMORY_STUBS)
+
+# =====================================================================================================================
+# foyer-storage
+# =====================================================================================================================
+KP = "keeper::verif_kani"
+KF = "Keeper::{new,insert,get}, PieceRef::drop, Piece::{new,clone,drop}, hashbrown::HashTable::{entry,find} (portable groups)"
+h("C01", "foyer-storage", KP, "c01_k1_keeper_supersede", "K1 write-queue visibility: v1 queued, v2 queued, write of v1 completes", KF,
+  "one symbolic key, concrete 3-step schedule", quick=True, tq=900, tt=3000, unwind=6, miri=True, extra_props=["C17"])
+h("C01", "foyer-storage", KP, "c01_k1_keeper_collide_3", "K1 symbolic schedule, two keys colliding on all 64 hash bits", KF,
+  "2 keys, 3 symbolic steps (insert next version of A|B / complete the write of a queued piece)", quick=False, tq=900, tt=3000, unwind=6, miri=True, extra_props=["C17"])
+h("C01", "foyer-storage", KP, "c01_k1_keeper_distinct_3", "K1 symbolic schedule, two keys with distinct hashes", KF,
+  "2 keys, 3 symbolic steps", quick=False, tq=900, tt=3000, unwind=6, miri=True)
+h("C01", "foyer-storage", KP, "c01_k1_keeper_collide_4", "K1 symbolic schedule, 4 steps", KF, "2 colliding keys, 4 symbolic steps", quick=False, tq=900, tt=3600, unwind=6, miri=True, extra_props=["C17"])
+
+BUF = "engine::block::buffer::verif_kani"
+SPL = "Splitter::{split,split_blob,split_block,seal_blob}, BlobIndex::{write,seal,reset,is_full,capacity}, BufferEntryInfo::aligned, IoSlice::slice, BlobIndexReader::read, BlobEntryIndex::{read,write,aligned}"
+HEAD = ["Checksummer::checksum64 -> loop-free fold of the length and the first 32 checksummed bytes (layout harnesses; integrity is decided elsewhere)"]
+for nm, n, blk, c, q in (("c07_w1_b4_n1_c0", 1, 4, 0, True), ("c07_w1_b4_n1_c1", 1, 4, 1, True), ("c07_w1_b4_n2_c0", 2, 4, 0, False), ("c07_w1_b4_n2_c1", 2, 4, 1, False),
+                          ("c07_w1_b4_n3_c0", 3, 4, 0, False), ("c07_w1_b4_n3_c2", 3, 4, 2, False), ("c07_w1_b256_n1_c169", 1, 256, 169, True),
+                          ("c07_w1_b256_n2_c168", 2, 256, 168, False), ("c07_w1_b256_n2_c169", 2, 256, 169, False), ("c07_w1_b256_n3_c167", 3, 256, 167, False),
+                          ("c07_w1_b256_n3_c168", 3, 256, 168, False), ("c07_w1_b256_n2_c0", 2, 256, 0, False)):
+    h("C07", "foyer-storage", BUF, nm, "W1 splitter step from an arbitrary valid SplitCtx + W2 index page / reader / scanner agreement", SPL,
+      f"block {blk} pages, index page 4 KiB; pre-state: open blob with {c} entries (concrete), blob offset and part offset symbolic under the invariant; one batch of {n} "
+      f"entr{'y' if n == 1 else 'ies'} with symbolic length(s) 1..=12 KiB", quick=q, tq=600, tt=3000, stubs=STORAGE_STUBS[:5] + HEAD + [STORAGE_STUBS[-1]])
+h("C07", "foyer-storage", BUF, "c07_w1_inv_init", "W1 base case: SplitCtx::new satisfies the invariant", "SplitCtx::new", "block 16 KiB, index 4 KiB", quick=True, tq=300)
+h("C07", "foyer-storage", BUF, "c07_w4_index_slots", "W4 index slot addressing at the boundary counts", "BlobIndex::{write,is_full,capacity}, BlobEntryIndex::{write,read}",
+  "count in {0,1,168,169,170}; slot contents symbolic", quick=True, tq=300)
+h("C07", "foyer-storage", BUF, "c07_w3_push_slice", "W3 Buffer::push_slice bookkeeping / whole-entry rejection", "Buffer::push_slice, bits::align_up",
+  "4-page buffer, 3 pushes with symbolic lengths 1..=12 KiB, max_entry_size symbolic 1..4 pages", quick=True, tq=300, extra_props=["C08"])
+for n in (0, 2):
+    h("C03", "foyer-storage", BUF, f"c03_d3a_index_flip_{n}", "D3a sealed blob index page with one damaged byte", "BlobIndex::{write,seal}, BlobIndexReader::read",
+      f"{n} entries (symbolic), one symbolic byte among the stored checksum / count / first slot replaced by a symbolic different value", quick=(n == 2), tq=300,
+      stubs=STORAGE_STUBS[:5] + HEAD + [STORAGE_STUBS[-1]])
+h("C03", "foyer-storage", BUF, "c03_d3b_index_arbitrary", "D3b arbitrary page with wrong checksum", "BlobIndexReader::read",
+  "first 40 bytes symbolic (stored checksum, count, first slot), rest unconstrained; checksum comparison constrained to mismatch", quick=True, tq=300,
+  stubs=STORAGE_STUBS[:5] + HEAD + [STORAGE_STUBS[-1]])
+
+RC = "engine::block::recover::verif_kani"
+RCF = "BlockRecoverRunner::run, BlockScanner::{new,next}, BlobIndexReader::read, Block::read over a harness IoEngine / Partition (4-page block)"
+h("C03", "foyer-storage", RC, "c03_d5a_scan_then_garbage", "D5a scan stops at the first damaged page; read errors (Quiet/Strict)", RCF,
+  "blob of 2 entries written by the real index writer (hashes, sequences symbolic), followed by a page of arbitrary bytes with non-matching checksum; optional read error at read 0 or 1; both recovery modes",
+  quick=False, tq=900, tt=3000, fs=4100, extra_props=["C07"], stubs=STORAGE_STUBS[:5] + HEAD + [STORAGE_STUBS[-1]])
+h("C03", "foyer-storage", RC, "c03_d5b_damaged_index", "D5b damaged blob index page yields nothing", RCF,
+  "index page of 2 entries with one symbolic byte (of the first 40) replaced by a symbolic different value", quick=False, tq=900, tt=3000, fs=4100,
+  stubs=STORAGE_STUBS[:5] + HEAD + [STORAGE_STUBS[-1]])
+h("C03", "foyer-storage", RC, "c03_d5c_stale_second_blob", "D5c stale generation behind a newer blob is not recovered", RCF,
+  "two one-entry blobs in one block, sequences symbolic (regressing or continuing)", quick=False, tq=900, tt=3000, fs=4100, extra_props=["C07"],
+  stubs=STORAGE_STUBS[:5] + HEAD + [STORAGE_STUBS[-1]])
+ST = "store::verif_kani"
+STF = "Store::{load,enqueue,delete}, Keeper::{insert,get}, PieceRef::drop over a harness `Engine` (answers arbitrary decoded (key,value) / miss / throttled / error)"
+h("C01", "foyer-storage", ST, "c01_store_load_disk_key_check", "L1 decoded-key comparison on disk answers", STF,
+  "requested key symbolic u64; engine answer symbolic: Entry(any key, any value) | Miss | Throttled | Error", quick=True, tq=900, tt=3000, unwind=6, miri=True, extra_props=["C17", "C03"])
+h("C01", "foyer-storage", ST, "c01_store_load_queue_first", "L2 write queue consulted first; colliding twin not aliased", STF,
+  "queued key 16 or 17 (identical 64-bit hash), value symbolic; lookup of 16 / 17 / 32; engine answer symbolic", quick=True, tq=900, tt=3000, unwind=6, miri=True, extra_props=["C17"])
+h("C12", "foyer-storage", ST, "c12_store_enqueue_admission", "E1 admission decision of Store::enqueue", STF,
+  "force symbolic, filter result symbolic (admit / reject / throttled), key and value symbolic", quick=True, tq=900, tt=3000, unwind=6, miri=True, extra_props=["C01"])
+TB = "engine::block::tombstone::verif_kani"
+TF = "TombstoneLog::{open,append,calculate_slot_addr,slot_addr}, Tombstone::{read,write}, PageBuffer::{open,update,load,flush,locate} on a harness IoEngine/Partition over a byte array"
+h("C10", "foyer-storage", TB, "c10_t4_slot_addr", "T4 slot arithmetic", "TombstoneLog::calculate_slot_addr", "pages 1..=2^20, slot < 2^40 (symbolic)", quick=True, tq=300)
+for nm, pp, newest, q in (("c10_t1_open_p0_s5", "2 pages, 1 partition", 5, False), ("c10_t1_open_p0_s255", "2 pages, 1 partition", 255, False),
+                          ("c10_t1_open_p1_s256", "2 pages, 1 partition", 256, True), ("c10_t1_open_p1_s300", "2 pages, 1 partition", 300, False),
+                          ("c10_t1_open_p2_s600", "3 pages, 1 partition", 600, False), ("c10_t1_open_2parts_s300", "2 partitions of 1 page", 300, True)):
+    h("C10", "foyer-storage", TB, nm, "T1 tail location after reopen", TF, f"{pp}; newest tombstone at global slot {newest} (hash, sequence symbolic), one older tombstone", quick=q, tq=600, unwind=260, fs=4100)
+for nm, newest, q in (("c10_t3_cycle_p0_s9", 9, False), ("c10_t3_cycle_p0_s255", 255, True), ("c10_t3_cycle_p1_s300", 300, True)):
+    h("C10", "foyer-storage", TB, nm, "T2+T3 open -> append -> reopen", TF, f"2 pages; newest tombstone at slot {newest}; one appended tombstone (symbolic)", quick=q, tq=600, unwind=260, fs=4100)
+for nm, pg, n, tail, q in (("c10_t2_append_2_at255", 2, 2, 255, True), ("c10_t2_append_3_at254", 2, 3, 254, False), ("c10_t2_append_3_at255", 2, 3, 255, True),
+                           ("c10_t2_append_2_at256", 2, 2, 256, False), ("c10_t2_append_2_at511_wrap", 2, 2, 511, True), ("c10_t2_append_1_at700", 3, 1, 700, False)):
+    h("C10", "foyer-storage", TB, nm, "T2 append addressing / page switch / wrap-around on the device image", TF,
+      f"{pg}-page log, tail slot {tail} (concrete), batch of {n} symbolic tombstones; every other slot checked untouched (symbolic slot)", quick=q, tq=600, unwind=8, fs=4100)
+h("C03", "foyer-storage", TB, "c03_d4_tombstone_read", "D4 Tombstone::read on arbitrary bytes", "Tombstone::{read,write}", "all 2^128 inputs", quick=True, tq=300)
+
 OUTSIDE = {
-    "C08": ["Zstd and Lz4 (C FFI, not executable by Kani)", "the serde feature's bincode path", "payloads longer than 8 bytes (page / buffer boundary sizes)",
-            "multi-byte UTF-8 strings (symbolically); HybridCache::get after eviction to disk"],
+    "C01": ["Store::load lookup order and key comparison, BlockEngine enqueue/load/delete, flusher ordering, reclaim, recovery merge, close+reopen (all behind tokio Spawner)",
+            "disk Indexer sequence guard (std HashMap = SSE2 hashbrown inside prebuilt std: out of CBMC's reach)", "compression, value sizes beyond the entry limit"],
     "C03": ["a forged checksum that matches damaged bytes (64-bit xxhash collision; checksum is stubbed)", "Zstd/Lz4 payloads",
             "Store::load key comparison and error->miss mapping (needs tokio Spawner)", "reopen orchestration (RecoverRunner)"],
+    "C05": ["resize (thread::spawn: kani-compiler ICE)", "more than one shard in the step harnesses (A4 covers the cross-shard arithmetic)", "LFU and S3-FIFO instantiations of the RawCache harnesses",
+            "multi-threaded quiescence"],
+    "C07": ["device image after real reclaim / reuse", "flusher counts > 1, the async write path", "runtime loadability of every indexed key (needs the engine)", "blob index sizes other than one page"],
+    "C08": ["Zstd and Lz4 (C FFI, not executable by Kani)", "the serde feature's bincode path", "payloads longer than 8 bytes (page / buffer boundary sizes)",
+            "multi-byte UTF-8 strings (symbolically); HybridCache::get after eviction to disk"],
+    "C10": ["recovery letting the tombstone suppress the entry (RecoverRunner::run, behind Spawner)", "flusher appending in the same io task", "HybridCache::get/contains after reopen",
+            "logs larger than 3 pages (arithmetic is page-uniform: stated, not proved)"],
+    "C11": ["the hybrid variant through the real Store", "RawFetch::poll schedule (X2) unless listed in samples", "SSE2 hashbrown groups (portable groups are what is encoded)"],
+    "C12": ["HybridCachePipe::send, HybridCache::insert*, HybridGetOrFetch::poll (need a Store, i.e. tokio)", "device write counts", "policies, close, admission filters"],
+    "C13": ["resize", "multi-threaded runs", "LFU / S3-FIFO instantiations"],
+    "C14": ["S3-FIFO and w-TinyLFU unless listed in samples", "the count-min sketch's accuracy", "more than 3 records / 5 operations"],
+    "C16": ["deadlocks that need two threads (lock-order inversions)", "hybrid cache, keeper, block manager locks"],
+    "C17": ["disk tier key comparison in Store::load", "recovery", "SSE2 hashbrown groups"],
+    "C18": ["cross-thread races between dec_refs and the shard lock", "resize"],
 }
 ASSUMPTIONS = {
     "C08": ["payload lengths are concrete per harness (0..=8), contents symbolic"],
     "C03": ["buffer lengths are concrete per harness, contents symbolic"],
+    "C07": ["split context pre-states are constrained by the representation invariant `inv`, which is asserted on SplitCtx::new and on every post-state (induction over batches)"],
+    "C05": ["pre-states are built through the real API; operations are single steps from them"],
+    "C10": ["device image: zero-filled except the listed tombstones; positions concrete per harness, contents symbolic"],
 }
